@@ -300,6 +300,35 @@ def work(spec):
                             core.add_violation(res, {'kind': 'removed', 'ast': [list(map(list, r)) for r in rules], 'gone': perm.index(gone), 'path': p},
                                                f'rules {[rr.default_text(r) for r in rules]} minus #{perm.index(gone)}: path {p!r}: router {got!r}, reference {exp!r}',
                                                sig='after-removal:' + sig_for(p, got, exp))
+            # removal by prefix (`remove('/a/x*')`): exactly the rules whose pattern starts with the prefix go, the others
+            # - in particular all of them when nothing starts with it - resolve as before
+            for pfx in ('a/x', 'ax', 'b/', 'a/a', 'a/b', 'a', 'a/ab/', 'm/\r2'):
+                for perm in ((0, 1, 2), (2, 1, 0)):
+                    rules = [u[trio[x]] for x in perm]
+                    router, handlers, err = build(rmod, rules)
+                    res['states'] += 1
+                    if err:
+                        continue
+                    text = '/' + pfx.replace('\r2', '{k:rex((img)|(doc)|(raw))[2]}') + '*'
+                    try:
+                        router.remove(text)
+                    except Exception as e:   # noqa
+                        core.add_violation(res, {'kind': 'removed', 'ast': [list(map(list, r)) for r in rules], 'gone': text, 'path': None},
+                                           f'remove({text!r}) raised {type(e).__name__}', sig='remove-raised')
+                        continue
+                    c['routers'] += 1
+                    c['prefix_removals'] += 1
+                    surv = [r for r in rules if not rr.pattern(r).startswith(pfx)]
+                    for p in paths_for([u[t] for t in trio], 2):
+                        exp = expect(surv, p)
+                        got = observe(router, p)
+                        if got is not None and len(got) == 2 and isinstance(got[0], int):
+                            got = (surv.index(rules[got[0]]) if rules[got[0]] in surv else 'removed-rule', got[1])
+                        res['transitions'] += 1
+                        if not same(got, exp):
+                            core.add_violation(res, {'kind': 'removed', 'ast': [list(map(list, r)) for r in rules], 'gone': text, 'path': p},
+                                               f'rules {[rr.default_text(r) for r in rules]} after remove({text!r}): path {p!r}: router {got!r}, reference {exp!r}',
+                                               sig='after-prefix-removal:' + sig_for(p, got, exp))
         core.add_sample(res, {'first_rule': rr.default_text(u[a]), 'registered_then_one_removed': True})
     elif kind == 'samemask':
         # filters are built once per process: rules whose filters share a regex text, registered in both orders
@@ -503,6 +532,18 @@ def replay(case):
     if kind == 'removed':
         rules = [_ast(r) for r in case['ast']]
         router, handlers, err = build(rmod, rules)
+        if isinstance(case['gone'], str):
+            router.remove(case['gone'])
+            pfx = case['gone'][1:-1].replace('{k:rex((img)|(doc)|(raw))[2]}', '\r2')
+            surv = [r for r in rules if not rr.pattern(r).startswith(pfx)]
+            exp = expect(surv, case['path'])
+            got = observe(router, case['path'])
+            if got is not None and len(got) == 2 and isinstance(got[0], int):
+                got = (surv.index(rules[got[0]]) if rules[got[0]] in surv else 'removed-rule', got[1])
+            if same(got, exp):
+                return None
+            return (f'rules {[rr.default_text(r) for r in rules]} registered, then remove({case["gone"]!r}) (a prefix removal: {len(rules) - len(surv)} of the rules '
+                    f'start with it): resolve({case["path"]!r}) gives {got!r}; the rules that do not start with the prefix give {exp!r}')
         router.remove(rr.default_text(rules[case['gone']]))
         surv = [r for i, r in enumerate(rules) if i != case['gone']]
         exp = expect(surv, case['path'])
